@@ -64,11 +64,23 @@ def ingredients(draw: Any) -> dict[str, Any]:
     if mode == "text":
         sw["empty_literal"] = draw(st.integers(0, 4)) == 0
     spec = draw(specgen.grammars(sw))
+    nested = mode == "text" and draw(st.integers(0, 4)) == 0
+    if nested:
+        # directed: the same postfix operator nested in itself around bracket-like literals; inputs in which the
+        # OUTER pattern recurs where the inner repetition stands ("(())") are outside the language
+        op = draw(st.sampled_from(["star", "plus", "opt", "star"]))
+        x = draw(st.sampled_from([["lit", "a"], ["nt", "x"], ["alt", [["lit", "a"], ["lit", "b"]]]]))
+        inner = [op, x] if op != "rep" else ["rep", x, 0, 2]
+        outer = [op, ["seq", [["lit", "("], inner, ["lit", ")"]]]]
+        tail = draw(st.sampled_from([[], [["lit", "a"]], [["opt", ["lit", "b"]]]]))
+        spec = {"rules": [["start", ["seq", [outer] + tail] if tail else outer], ["x", ["alt", [["lit", "a"], ["lit", "b"]]]]],
+                "mode": "text", "alphabet": "ab()"}
     names = [r[0] for r in spec["rules"]]
     alpha = spec["alphabet"] + ("é" if sw.get("non_ascii") else "")
     return {
         "spec": spec,
-        "start": draw(st.sampled_from(names[:2])),
+        "start": "start" if nested else draw(st.sampled_from(names[:2])),
+        "nested": nested,
         "alpha": alpha,
         "idx": draw(st.lists(st.integers(0, 10**6), min_size=1, max_size=10)),
         "fuzz_seeds": draw(st.lists(st.integers(0, 10**6), min_size=0, max_size=3)),
@@ -99,6 +111,15 @@ def build_case(ing: dict[str, Any]) -> dict[str, Any]:
     for w, ed in zip(base[:8], ing["edits"]):
         inputs.append(apply_edits(w, ed, ing["alpha"]))
     inputs += ing["random"] if mode == "text" else [bytes.fromhex(h) for h in ing["random"]]
+    if ing.get("nested"):
+        # every bracket string up to 6 characters, balanced or not, with a's in the innermost places
+        import itertools as _it
+
+        for n in range(0, 7):
+            for tup in _it.product("()a", repeat=n):
+                w = "".join(tup)
+                if w.count("(") == w.count(")") and w not in inputs and "((" in w:
+                    inputs.append(w)
     if mode == "bin" and ing["latin1"]:
         # near-miss class: the Latin-1 instead of the UTF-8 encoding of non-ASCII text
         for w in base[:6]:
